@@ -45,6 +45,8 @@ func (f flspec) Gen(prop, tier string, ts *sim.Tapes) *Case {
 	if tier == "thorough" {
 		n = 5 + t.Intn(200)
 		ex.Big = t.Chance(1, 40)
+	} else {
+		ex.Big = ts.Run%997 == 31 // the count-overflow boundary also in the quick tier (about 0.1 s per scenario)
 	}
 	// initial free list
 	var ids []uint64
@@ -530,7 +532,8 @@ func (f flspec) bigRoundTrip(name string, mk func() fl.Interface, out *Outcome) 
 			viol = &work.Violation{Prop: "C09", Class: "panic-" + name, Msg: fmt.Sprintf("%s backend panicked in the >65534 scenario: %v", name, r)}
 		}
 	}()
-	for _, n := range []int{0xFFFE, 0xFFFF, 0x10000, 70000} {
+	// totals (free + 3 pending) on both sides of and exactly at the boundary 0xFFFF, where the count moves into the first id
+	for _, n := range []int{0xFFFF - 5, 0xFFFF - 4, 0xFFFF - 3, 0xFFFF - 2, 0xFFFF, 0x10000, 70000} {
 		impl := mk()
 		ids := make(common.Pgids, 0, n)
 		for i := 0; i < n; i++ {
@@ -611,6 +614,6 @@ func (f flspec) Shrinks(c *Case) []*Case {
 func init() {
 	register(&Info{Prop: "C09", Engine: altEngine{[]Engine{flspec{}, flspec{}, modelsim{}, faultsim{}}}, Level: "exploration", QuickS: 40, ThoroughS: 400,
 		RealStub: "real: internal/freelist array and hashmap backends (tag verif: the hashmap's 'any span' choice is lowest/highest/tape-chosen); shadow specification of the allocator written from the property statement; page images parsed by the published layout. No I/O, clock or schedule exists in this component: plain seeded model-based testing (stated plainly)",
-		Rule:     "one evaluation = one seeded sequence of 5-200 allocator operations (Init, Allocate(n), Free(page+overflow), Rollback+Reload, Add/RemoveReadonlyTXID, ReleasePendingPages at transaction boundaries, Write, Read into a fresh instance, Reload, NoSyncReload) over universes of 12-72 page ids, executed on both backends; after every operation free set, pending set, counts, Freed and Copyall are compared with the specification; Allocate must return a run that was entirely free or 0 only when no run exists; released pages must be invisible to every registered reader and everything is released when there is none; in thorough some runs add the >65534-entry encoding scenario. distinct = distinct operation sequences",
+		Rule:     "one evaluation = one seeded sequence of 5-200 allocator operations (Init, Allocate(n), Free(page+overflow), Rollback+Reload, Add/RemoveReadonlyTXID, ReleasePendingPages at transaction boundaries, Write, Read into a fresh instance, Reload, NoSyncReload) over universes of 12-72 page ids, executed on both backends; after every operation free set, pending set, counts, Freed and Copyall are compared with the specification; Allocate must return a run that was entirely free or 0 only when no run exists; released pages must be invisible to every registered reader and everything is released when there is none; some runs (1 in 40 in thorough, 1 in 997 in quick) add the count-overflow encoding scenario: lists of 65533, 65534, 65535 (the boundary itself), 65536 and more entries are written, parsed by the published rule and re-read. distinct = distinct operation sequences",
 		Assume:   []string{"run indices 0,1 mod 4: direct arm as described; 2 mod 4: in-system arm - a seeded modelsim history with the freelist of the real DB wrapped by an observer (hook H7) that checks every Allocate/Free/ReleasePendingPages/Rollback+Reload result against the allocator's state before the call; 3 mod 4: the same observer during faultsim's failing commits (rollback restores the prior state)"}})
 }
